@@ -7,6 +7,7 @@ import ArcSwapModel.Tie.LibSwap
 import ArcSwapModel.Tie.LibStore
 import ArcSwapModel.Tie.HybridCas
 import ArcSwapModel.Inv.Surplus
+import ArcSwapModel.Inv.Haz6
 
 /-!
 # C01 — no use-after-free (partial: containers and handles keep their value alive — global theorem;
@@ -21,9 +22,15 @@ program discipline, has no successful hand-over and raises no fault, the strong 
 is at least the number of containers holding it plus the number of handles denoting it; so the
 container's own stored copy, the result of a full load and a previous value returned by a writer are
 alive (`C01_stored_value_alive`, `C01_handle_value_alive`).  The hazard clause (a *borrowed* guard's
-value is alive: the slot is seen by every writer that replaces the value) is not proved as a global
-invariant.  What is proved for it are the facts its preservation rests on — each for every shared state, i.e. for
-every behaviour of the other threads:
+value is alive: the slot is seen by every writer that replaces the value) is proved as a global
+invariant for the fast slots (`Inv/Haz0 … Haz6`, `C01_confirmed_slot_protects_its_value`,
+`C01_borrowed_guard_alive_partial`): a fast slot that names a value, once its owner has confirmed
+it, has the value still in a container or ahead of it the walk of a thread that took the value out
+— along every execution in which containers are created on fresh cells and none is destroyed.  Not
+covered by that invariant: debts in the helping slot (the fallback path, correct only up to a wrap
+of the generation counter) and executions that destroy containers (exclusive access is the type
+system's business).  The per-step facts the invariant composes — each for every shared state, i.e.
+for every behaviour of the other threads:
 
 1. **publish, then confirm**: a load returns a borrowed guard (one with a debt) only from the
    confirming read, at a step at which the cell holds exactly the pointer that the reader had
@@ -278,13 +285,95 @@ theorem C01_paid_guard_release_no_fault (K N T : Nat) (hK : 0 < K) (cfg : Cfg) (
     (microStep (run (State.initial cfg progs) sched) t b).1.sh.fault = none :=
   dropg_dec_no_fault K N T hK cfg progs sched he hf p ha t ht b hop
 
+/-! ## The hazard clause -/
+
+/-- **one step of a writer's walk keeps a slot ahead of it, unless the step is the attempt on that
+    very slot** — the order of `pay_all` (nodes in list order, slots in index order) is what makes a
+    published debt visible to every writer that starts its walk after the publication -/
+theorem C01_walk_passes_no_slot_unseen (cfg : Cfg) (p c : Nat) (s : Shared) (l : Locals) (b : Bool) (pp : PP) (L : List Nat)
+    (hc : chainFrom (nextOf s) s.head L) (n i : Nat) (hn : n ∈ L) (hi : i < slotCnt)
+    (hnode : pp.beforeNode = false → l.node.isSome = true) (h : pp.ahead L n i) :
+    (stepPP cfg p c s l b pp).2.2.1.ahead L n i ∨ pp = .slot n i :=
+  ahead_step cfg p c s l b pp L hc n i hn hi hnode h
+
+/-- **the hazard invariant is inductive**: one step of any thread keeps it (the list may grow at the
+    front) -/
+theorem C01_hazard_invariant_step {N : Nat} {st : State} {L : List Nat} (h : HazAll N st L) (t : Nat) (b : Bool)
+    (htame : Tame N st t) : ∃ pre, HazAll N (microStep st t b).1 (pre ++ L) :=
+  h.step t b htame
+
+/-- **a confirmed slot protects the value it names**: along every execution in which containers are
+    created on fresh cells only and none is destroyed — any number of threads, any programs, any
+    schedule — a fast slot that names `a`, and that its owner is not still in the middle of
+    confirming or taking back, has `a` still stored in a container, or some thread that took `a` out
+    of a container is walking the list for it and has this slot still ahead of it. -/
+theorem C01_confirmed_slot_protects_its_value (N : Nat) (cfg : Cfg) (progs : Nat → List (String × Op))
+    (sched : List (Nat × Bool)) (ht : TameRun N (State.initial cfg progs) sched) (n i a : Nat) (hi : i < slotCnt)
+    (hs : ((run (State.initial cfg progs) sched).sh.nodes n).fast i = .ptr a)
+    (hconf : ∀ o, ((run (State.initial cfg progs) sched).th o).loc.node = some n →
+      ¬ Unc ((run (State.initial cfg progs) sched).th o).op.lp? a i) :
+    (∃ c, c < N ∧ (run (State.initial cfg progs) sched).sh.cells c = some a) ∨
+      ∃ w pp L, ((run (State.initial cfg progs) sched).th w).op.walk? = some (a, pp) ∧ pp.ahead L n i :=
+  borrowed_value_protected N cfg progs sched ht n i a hi hs hconf
+
+/-- the value a thread is walking the list for is counted: the walker holds the reference it took
+    out of the container until the walk is over (`swap`/`store`, `compare_and_swap`, `rcu`) -/
+theorem C01_walked_value_alive (K N T : Nat) (hK : 0 < K) (cfg : Cfg) (progs : Nat → List (String × Op))
+    (sched : List (Nat × Bool)) (he : EnvRun0 K N T (State.initial cfg progs) sched)
+    (hf : (run (State.initial cfg progs) sched).sh.fault = none) (a : Nat) (ha : a ≠ 0)
+    (w : Nat) (pp : PP) (hw : ((run (State.initial cfg progs) sched).th w).op.walk? = some (a, pp)) :
+    1 ≤ ((run (State.initial cfg progs) sched).sh.heap a).cnt :=
+  walked_value_counted K N T hK cfg progs sched he hf a ha w pp hw
+
+/-- **C01 for a borrowed guard (partial).**  Thread `o` owns node `n` and is between two operations;
+    fast slot `i` of `n` names `a` — a borrowed guard of `o`, taking no reference of its own.  Then
+    `a` is alive (its count is positive and it has not been destroyed), whatever the other threads
+    do: along every execution that satisfies the assumptions of the ledger (`EnvRun0`), in which
+    containers are created on fresh cells only and none is destroyed (`TameRun`), and that has
+    raised no fault.
+
+    Full statement: the same for every guard, in every reachable state.  Missing: debts in the
+    helping slot (the fallback path; the protocol itself is correct only up to a wrap of the
+    generation counter during one stalled help), executions that destroy containers, and executions
+    with a successful hand-over of a replacement (the ledger's `NoEnv`). -/
+theorem C01_borrowed_guard_alive_partial (K N T : Nat) (hK : 0 < K) (cfg : Cfg) (progs : Nat → List (String × Op))
+    (sched : List (Nat × Bool)) (he : EnvRun0 K N T (State.initial cfg progs) sched)
+    (ht : TameRun N (State.initial cfg progs) sched)
+    (hf : (run (State.initial cfg progs) sched).sh.fault = none) (a : Nat) (ha : a ≠ 0)
+    (o n i : Nat) (hi : i < slotCnt)
+    (hidle : ((run (State.initial cfg progs) sched).th o).op = .idle)
+    (hnode : ((run (State.initial cfg progs) sched).th o).loc.node = some n)
+    (hs : ((run (State.initial cfg progs) sched).sh.nodes n).fast i = .ptr a) :
+    1 ≤ ((run (State.initial cfg progs) sched).sh.heap a).cnt ∧
+      ((run (State.initial cfg progs) sched).sh.heap a).live = true :=
+  borrowed_guard_of_resting_thread_alive K N T hK cfg progs sched he ht hf a ha o n i hi hidle hnode hs
+
+/-- the same for any confirmed slot, whoever its owner and whatever it is doing (a thread in the
+    middle of another operation holds its earlier guards too) -/
+theorem C01_confirmed_slot_value_alive_partial (K N T : Nat) (hK : 0 < K) (cfg : Cfg) (progs : Nat → List (String × Op))
+    (sched : List (Nat × Bool)) (he : EnvRun0 K N T (State.initial cfg progs) sched)
+    (ht : TameRun N (State.initial cfg progs) sched)
+    (hf : (run (State.initial cfg progs) sched).sh.fault = none) (a : Nat) (ha : a ≠ 0)
+    (n i : Nat) (hi : i < slotCnt) (hs : ((run (State.initial cfg progs) sched).sh.nodes n).fast i = .ptr a)
+    (hconf : ∀ o, ((run (State.initial cfg progs) sched).th o).loc.node = some n →
+      ¬ Unc ((run (State.initial cfg progs) sched).th o).op.lp? a i) :
+    1 ≤ ((run (State.initial cfg progs) sched).sh.heap a).cnt ∧
+      ((run (State.initial cfg progs) sched).sh.heap a).live = true :=
+  borrowed_value_alive K N T hK cfg progs sched he ht hf a ha n i hi hs hconf
+
+/-- non-vacuity of the hazard theorems: the concrete execution `hazSched` of `hazEx` (Inv/Haz6) is
+    tame and fault-free and ends with thread 0 resting on a borrowed guard of value 1 that is in no
+    container any more, thread 1 at the start of its walk for it -/
+example : TameRun 4 hazEx hazSched ∧ ((run hazEx hazSched).th 0).op = .idle ∧
+    ((run hazEx hazSched).sh.nodes 0).fast 0 = .ptr 1 ∧ (run hazEx hazSched).sh.cells 0 = some 2 :=
+  ⟨tameRun_of_B (by decide +kernel), by decide +kernel, by decide +kernel, by decide +kernel⟩
+
 /-!
-What is left of C01 on the machine: a *borrowed* guard whose slot still names the value.  There the
-count may be held by the container alone; that the value stays alive rests on every writer that
-replaces it finding the slot (the hazard clause: publish-then-confirm on the reader's side, the
-complete walk on the writer's side — items 1–5 above, each proved per step for every shared state,
-not yet composed into a global invariant; and on the fallback path only up to a wrap of the
-generation counter during one stalled help, as the crate's documentation says).
+What is left of C01 on the machine: a guard whose debt is in the *helping* slot (the fallback path:
+the hazard argument there goes through the control word and the generation, and holds only up to a
+wrap of the generation counter during one stalled help, as the crate's documentation says), and the
+composition of the hazard clause with executions that destroy containers or hand a replacement
+over.
 -/
 
 end C01
